@@ -39,3 +39,21 @@ func init() {
 			{"schema/naming.go", "var _ Namer = (*NamingStrategy)(nil)\n", "var _ Namer = (*NamingStrategy)(nil)\n\nvar dotReplacer = strings.NewReplacer(\".\", \"_\")\n"}}},
 	)
 }
+
+func init() {
+	addMutants(
+		// C11.join-null
+		Mutant{Name: "c11-joined-relation-marked-before-the-null-test", Property: "C11", Rule: "C11.join-null", Edits: []Edit{{"scan.go",
+			"\t\t\t\t\tif _, ok := joinedNestedSchemaMap[fullRelsName]; !ok {\n\t\t\t\t\t\tif value := reflect.ValueOf(values[idx]).Elem(); value.Kind() == reflect.Ptr && value.IsNil() {",
+			"\t\t\t\t\tif _, ok := joinedNestedSchemaMap[fullRelsName]; !ok {\n\t\t\t\t\t\tjoinedNestedSchemaMap[fullRelsName] = nil\n\t\t\t\t\t\tif value := reflect.ValueOf(values[idx]).Elem(); value.Kind() == reflect.Ptr && value.IsNil() {"}}},
+		Mutant{Name: "n118-joined-relation-marker-as-bool-set", Property: "*", Rule: "NEUTRAL", Edits: []Edit{
+			{"scan.go", "\tjoinedNestedSchemaMap := make(map[string]interface{})\n", "\tjoinedNestedSchemaMap := make(map[string]bool)\n"},
+			{"scan.go", "\t\t\t\t\t\tjoinedNestedSchemaMap[fullRelsName] = nil\n", "\t\t\t\t\t\tjoinedNestedSchemaMap[fullRelsName] = true\n"}}},
+		// C12.values-all
+		Mutant{Name: "c12-values-of-empty-maps-skipped-with-continue", Property: "C12", Rule: "C12.values-all", Edits: []Edit{{"schema/utils.go",
+			"\t\tfor k, v := range rm {\n\t\t\tresultsMap[k] = append(resultsMap[k], v...)\n\t\t}\n\t\tresults = append(results, rs...)", "\t\tfor k, v := range rm {\n\t\t\tresultsMap[k] = append(resultsMap[k], v...)\n\t\t}\n\t\tif len(results) > 0 && len(rs) > 1 {\n\t\t\tcontinue\n\t\t}\n\t\tresults = append(results, rs...)"}}},
+		// C14.tx-wrapper-kept
+		Mutant{Name: "c14-savepoint-keeps-the-raw-transaction", Property: "C14", Rule: "C14.tx-wrapper-kept", Edits: []Edit{{"finisher_api.go",
+			"\t\tdb.AddError(savePointer.SavePoint(db, name))\n\t\t// restore prepared statement\n\t\tif isPreparedStmtTx {\n\t\t\tdb.Statement.ConnPool = preparedStmtTx\n\t\t}", "\t\tdb.AddError(savePointer.SavePoint(db, name))\n\t\t// restore prepared statement\n\t\tif isPreparedStmtTx && db.Error != nil {\n\t\t\tdb.Statement.ConnPool = preparedStmtTx\n\t\t}"}}},
+	)
+}
